@@ -146,6 +146,9 @@ pub fn run(tier: Tier) -> Run {
         let mut al: Vec<BOp> = vec![BOp::BeginFunction, BOp::EndFunction, BOp::BeginBlock, BOp::Ret, BOp::SelectFunction(None)];
         for j in 0..bsys::TEXTS.len() {
             al.push(BOp::NameAny(Some(0), j));
+            if j < 3 {
+                al.push(BOp::NameAny(Some(1), j));
+            }
             al.push(BOp::NameAny(None, j));
             al.push(BOp::SelectByText(j));
         }
